@@ -5,6 +5,7 @@ import (
 	"go/constant"
 	"go/token"
 	"go/types"
+	"regexp"
 	"strings"
 
 	"golang.org/x/tools/go/ssa"
@@ -107,10 +108,8 @@ func path(v ssa.Value, depth int) (string, bool) {
 	case *ssa.Global:
 		return x.Name(), true
 	case *ssa.Alloc:
-		if x.Comment != "" {
-			return "&" + x.Comment, true
-		}
-		return "", false
+		// the register disambiguates equally named variables of different scopes
+		return "&" + x.Comment + "%" + x.Name(), true
 	case *ssa.UnOp:
 		if x.Op == token.MUL {
 			p, ok := path(x.X, depth+1)
@@ -157,13 +156,16 @@ func path(v ssa.Value, depth int) (string, bool) {
 		return path(x.X, depth+1)
 	case *ssa.Call:
 		// pure accessor calls participate in paths: recv.M()
-		if f := x.Call.StaticCallee(); f != nil && len(x.Call.Args) <= 1 && f.Signature.Recv() != nil {
+		if f := x.Call.StaticCallee(); f != nil && len(x.Call.Args) == 1 && f.Signature.Recv() != nil {
 			p, ok := path(x.Call.Args[0], depth+1)
 			if ok {
 				return strings.TrimPrefix(p, "&") + "." + f.Name() + "()", true
 			}
 		}
-		return "", false
+		return "%" + x.Name(), true
+	case *ssa.Extract, *ssa.Phi, *ssa.Lookup, *ssa.Index, *ssa.TypeAssert, *ssa.Next:
+		// identity leaf: the SSA register (unique per value within a function)
+		return "%" + v.Name(), true
 	}
 	return "", false
 }
@@ -176,6 +178,22 @@ func fieldName(t types.Type, i int) string {
 		return s.Field(i).Name()
 	}
 	return fmt.Sprintf("#%d", i)
+}
+
+var regRe = regexp.MustCompile(`%t[0-9]+`)
+
+// StablePath is Path with SSA register names removed (for keys and messages that must not change
+// when unrelated code is edited). Not suitable for identity comparisons.
+func StablePath(v ssa.Value) (string, bool) {
+	p, ok := Path(v)
+	if !ok {
+		return "", false
+	}
+	p = strings.TrimPrefix(p, "&")
+	if strings.HasPrefix(p, "%") {
+		return "", false
+	}
+	return regRe.ReplaceAllString(p, ""), true
 }
 
 // FieldOf returns (struct named type, field name) addressed by a FieldAddr/Field value.
